@@ -1357,6 +1357,32 @@ func (ra *ringAbs) applyEdge(o *rstate, qv ssa.Value, iff *ssa.If, i int) bool {
 		}
 		cond, truth = u.X, !truth
 	}
+	// a flag that merges a conjunction (ok := a && b; if ok): on this path the flag is what the edge it came in
+	// on gave it — a constant false where a failed, b itself where a held
+	viaPhi := false
+	for k := 0; k < 4; k++ {
+		ph, isPhi := cond.(*ssa.Phi)
+		if !isPhi || !isBoolVal(ph) {
+			break
+		}
+		src, ok := o.phiSrc[ph]
+		if !ok || src == cond {
+			break
+		}
+		cond, viaPhi = src, true
+		for {
+			u, ok := cond.(*ssa.UnOp)
+			if !ok || u.Op != token.NOT {
+				break
+			}
+			cond, truth = u.X, !truth
+		}
+	}
+	if viaPhi {
+		if k, ok := cond.(*ssa.Const); ok && k.Value != nil && k.Value.Kind() == constant.Bool {
+			return constant.BoolVal(k.Value) == truth
+		}
+	}
 	if call, ok := cond.(*ssa.Call); ok {
 		// predicate helper: if q.isX() { ... }
 		cal := staticCallee(&call.Call)
@@ -1392,6 +1418,18 @@ func (ra *ringAbs) applyEdge(o *rstate, qv ssa.Value, iff *ssa.If, i int) bool {
 		return true
 	}
 	cm, okc := edgeCmp(iff, i)
+	if viaPhi {
+		okc = false
+		if bo, ok := cond.(*ssa.BinOp); ok {
+			op := bo.Op
+			if !truth {
+				op = negOp(op)
+			}
+			if op != token.ILLEGAL {
+				cm, okc = Cmp{bo.X, bo.Y, op}, true
+			}
+		}
+	}
 	if !okc || !(isIntVal(cm.X) || isBoolVal(cm.X)) {
 		return true
 	}
@@ -1509,6 +1547,25 @@ func (ra *ringAbs) checkSlot(name string, s *rstate, x *ssa.IndexAddr) {
 		}
 	case sp.walk:
 		ph, isPhi := c.r.(*ssa.Phi)
+		if isPhi && c.rc == 1 && c.h == 1 && c.n == 0 {
+			// the walk written with a counter instead of a cursor: slot ≡ head + i (+ k), i counting the elements
+			// from −k up by one — the same slots in the same order
+			init, step, okI, okS := rcls{}, rcls{}, false, false
+			for j, p := range ph.Block().Preds {
+				e, seen := ra.phiEdge[ph][j]
+				if !seen {
+					continue
+				}
+				if ph.Block().Dominates(p) {
+					step, okS = e, true
+				} else {
+					init, okI = e, true
+				}
+			}
+			if okI && okS && ra.clsEq(s, init, clsConst(-c.k)) && ra.clsEq(s, step, rcls{ok: true, r: ph, rc: 1, k: 1}) {
+				return
+			}
+		}
 		if !(isPhi && c.rc == 1 && c.h == 0 && c.n == 0 && c.k == 0) {
 			// a loop-free visit of slot head (e.g. a first element handled apart) is fine too; inside a loop the
 			// same slot would be visited for every element
